@@ -345,7 +345,7 @@ func TestVerifC12(t *testing.T) {
 				time.Sleep(50 * time.Millisecond)
 			}
 			_ = client.Close()
-			fmt.Fprintf(w, "mtcp d32obs server-cla-closed first=%v %s gone=?\n", r0 == nil, strings.Join(res, ","))
+			fmt.Fprintf(w, "mtcp d32obs server-cla-closed-first-send-ok=%v %s gone=?\n", r0 == nil, strings.Join(res, ","))
 		}
 	}
 
